@@ -31,7 +31,7 @@ reg('C13',
     'reads plus depth 2 with <=1 read deviation (none / exactly one of 9 values); thorough depth 4 (<=4 atoms) plus depth 3 with <=1 deviation on 11 seeds '
     'and <=2 deviations on 5 seeds. Seeds include a coordinate-bond molecule (CN~Cu). Medium seeds (5 in quick, 15 in thorough: Kekule benzene, amino acid with a stereocentre, '
     'E/Z diene, norbornane, zwitterion, spiro ketal, quinone, allene, isonitrile, Grignard, bicyclopropyl, pyrrole Kekule form, fused cyclopropane, salt): every enabled event at '
-    'every position x read patterns (depth 1), and every pair of events (thorough, default reads). Long random sequences of the property text are replaced by this '
+    'every position x read patterns (depth 1), and every pair of events (thorough, default reads). union is explored on both numbering paths (colliding and disjoint numbers) and the independence check covers the right operand as well as the left. Long random sequences of the property text are replaced by this '
     'bounded exhaustive space.',
     'explicit-state BFS with canonical state hashing and deviation-bounded environment choices, real implementation vs rebuilt reference',
     'DESIGN.md s5 C13')
@@ -41,7 +41,8 @@ reg('C18',
     'plus hydrogens None/0..6 per element. Each state is checked against a hand-written IUPAC symbol table (symbol<->number inverse, module exports), '
     'for equal key sets of the isotope tables containing the reference isotope, computable atomic masses, agreement of the common_isotopes tables in '
     'both .pyx files with mdl_isotope-16, pack->unpack through the pyx model, a decoder of the matcher bit layout written from its layout comment '
-    '(one bit per field, inside the field window), compilable valence/saturation rule tables naming only existing elements, and Query*/Dynamic* variants.',
+    '(one bit per field, inside the field window), compilable valence/saturation rule tables naming only existing elements, and Query*/Dynamic* variants. The lazily built lookup tables '
+    'are explored over the order of first use: a fresh interpreter per entry point used first (Element / element class / instance / query / dynamic / reader) x every number 1..118.',
     'Trusted: the symbol list in vf/props/c18.py; the .pyx sources are executed as a mechanically derived Python model with C integer semantics '
     '(no Cython here). 19 elements whose reference isotope is missing from their tables are recorded as known findings keyed by element.',
     'complete enumeration of a finite state space (all elements x isotopes x charges x radical) on the real tables and pack/matcher encoders',
@@ -94,7 +95,8 @@ reg('C19',
     '(corpus stride, the documented functional-group inputs, an organometallic combinator, a ring/double-bond stereo family, D(<=5,1), SMARTS '
     'queries) digests of canonical strings, atom orderings, ring sets, components, fingerprints and fragment dictionaries, ordered match lists, '
     'pack bytes, atom labels and the results of canonicalize/standardize/standardize_charges/neutralize/kekule/thiele/explicify (object vs its '
-    'copy vs after flush) must coincide over the whole grid. Digests include dict and set iteration order.',
+    'copy vs after flush vs a cold-cache copy) must coincide over the whole grid; a scoped search sits between the evaluations so that anything it leaves in a memo is seen by the next '
+    'evaluation. Digests include dict and set iteration order.',
     'Trusted: five fixed seeds stand for all hash seeds; hash(mol) is excluded (string hashing is seed dependent by design). pack bytes come from '
     'the pyx model. A violation is replayed by re-running the two grid cells involved.',
     'complete enumeration of a configuration grid (hash seed x process x order x cached/uncached/copy) on the real implementation',
@@ -108,7 +110,7 @@ reg('C20',
     'molecules that came from a renumbered RDKit molecule and remapped molecules with a 2D layout. Judges: RDKit canonical isomeric SMILES or mutual '
     'chirality-aware substructure match on one side, chython canonical SMILES on the other, plus per-atom element/isotope/charge/radical/H/map number/xy and bond orders under the index map. '
     'Extras: stereocentres with an isotopic hydrogen ATOM at every position of the neighbour list (24 orders x both marks x middle/first atom x GEN numberings) and donor->metal '
-    'coordinate bonds (10 donor elements x 5 metal fragments x donor-first/metal-first x 7 numberings: order 8 on the chython side, donor->metal direction and hydrogen counts on the RDKit side, both round trips).',
+    'coordinate bonds (10 donor elements x 5 metal fragments x donor-first/metal-first x 7 numberings: order 8 on the chython side, donor->metal direction and hydrogen counts on the RDKit side, both round trips). The text scope also holds the interdependent stereo family and 20 main-group / metal hydrides.',
     'Trusted: RDKit as the independent judge. Out of domain (counted, executed, not judged): RDKit-rejected inputs, inputs on which the two valence '
     'models disagree before conversion, non-carbon stereocentres, RDKit-aromatic rings outside chython aromaticity (compared through RDKit Kekule form), '
     'chython canonical strings that differ while RDKit proves identity (C01 exclusion i).',
@@ -170,7 +172,8 @@ reg('C08',
     'centre texts in all 24/6 neighbour orders x both marks x middle / first-atom / fragment forms, cis/trans texts x 6 bond primitives between the marks, allene '
     'texts, and every (partly) labelled variant of 15 base molecules (ring-opening centres, fused rings, dienes, tri/tetra-substituted and ring double bonds) in '
     'every RDKit spelling (every root x 3 numberings) are used as SMARTS against every variant as target; the mapping count must equal chirality-aware RDKit '
-    'matching of the SMILES reading of the same text.',
+    'matching of the SMILES reading of the same text. Query atoms built through the API: 6 kinds x 5 attributes x every value (incl. 0) as int / tuple / list, '
+    'by constructor keyword and by assignment, against the same attribute oracle.',
     'Trusted: vf/oracle/cycles.py, vf/oracle/valence.py and the hand-written non-metal list. Ring-size primitives are judged only on molecules whose '
     'minimum cycle basis is unique (others counted as out of domain). Stereo marks: RDKit is the judge; a chiral FIRST atom with an implicit hydrogen has no '
     'documented convention in the SMARTS subset and is counted as out of domain; three-neighbour centres are read as "unnamed neighbour last"; allene marks are '
@@ -199,7 +202,8 @@ reg('C02',
     'orders, and the sign of every tetrahedral / allene / cis-trans label relative to ascending-numbered neighbours; RDKit must read the text as the '
     'same stereoisomer. Injectivity: over D(<=5,2) (thorough <=6,2) the map canonical string -> brute-force canonical code of the labelled graph is a '
     'function, and stereoisomers that RDKit distinguishes never share a string. An interdependent family (pseudo-asymmetric centres, centres/double bonds that are stereogenic only '
-    'through other labels; 34 label combinations) is included so that a label can only survive through the iterative perception of the reader.',
+    'through other labels; 34 label combinations) is included so that a label can only survive through the iterative perception of the reader. The canonical text is also taken '
+    'after reading smiles_atoms_order first (radicals the reader cannot re-guess included).',
     'Trusted: RDKit as the independent reader; vf/oracle/iso.py canonical codes. Signs are compared through the library sign translation on both sides '
     '(its permutation consistency is C12). Aromatic inputs are normalised (kekule+thiele) before writing. Known finding: the writer loses/inverts a '
     'cis/trans mark when a stereo double bond of a conjugated diene is written as a ring-closure bond (keyed by that traversal shape).',
@@ -217,7 +221,8 @@ reg('C12',
     'every sign on RDKit 2D coordinates and RDKit reads the written MolBlock as the same stereoisomer. Every wedge that can be drawn (every heavy substituent x up/down): at 10 '
     'allenes the eight wedges must fall into the two classes given by mark x side of the substituent x terminal (geometric oracle), at tetrahedral centres the configuration must be '
     'the one RDKit derives from the same drawing. Ring-axis stereo (alkylidene-cycloalkanes, ring=ring double bonds, ring-attached allenes; not perceived by RDKit): every own '
-    'spelling must be read back with the same number of labels (stereogenicity independent of numbering).',
+    'spelling must be read back with the same number of labels (stereogenicity independent of numbering). Wedge geometry grid: 14 one-centre drawings (three neighbours from Y over the '
+    'exact T to a fan; four neighbours: cross, skewed, collinear pairs, half plane) x 5 rotations x 3 scales x every wedge x up/down must read as RDKit reads the same MolBlock.',
     'Trusted: RDKit as independent toolkit; permutation parity (vf/oracle/parity.py). Non-carbon stereocentres are out of domain. Molecules with up to 8 '
     'stereo elements are covered through the corpus and templates with up to 4 labels only. The ring-closure-diene writer defect is a known finding shared with C01/C02.',
     'complete enumeration of neighbour permutations and bounded exhaustive enumeration of spellings (choice-point exploration) vs parity and RDKit',
@@ -245,7 +250,9 @@ reg('C14',
     'derived values and atom/bond marks of the processed object equal those of a recomputed copy; op(op(m)) = op(m) on the structure; implicify o explicify '
     'and its converse are identities; op(pi m) = pi op(m) for ALL (n<=4) / GEN numberings with tautomer fixing off (on for the corpus); documented '
     'inputs give their documented outputs; tautomers conserve composition and are duplicate free. Rule instances are additionally run with gapped atom numbers '
-    '(2n+5) and an azole/azolium ring scan (every N/O/S placement in five-rings x N-substituent x charge) checks the charge rules on aromatic rings.',
+    '(2n+5) and an azole/azolium ring scan (every N/O/S placement in five-rings x N-substituent x charge) checks the charge rules on aromatic rings. Equivariance is also run on a '
+    'molecule REBUILT with reversed insertion order (remap keeps the storage order). Every tautomer is judged per atom: hydrogen count >= 0 and equal to the count its bonds imply '
+    '(element-table re-derivation on the Kekule form), over a tautomer-stereo family (labels on or next to migrating double bonds) and ring-carbonyl / quinone inputs.',
     'Relational oracle (no reference standardiser). Return values are not part of the idempotence statement. Four classes are known findings keyed by '
     'call site or input (metal amide -> dative rule adds hydrogens; azoxy-type two-pass rules; eta5-Cp numbering; one tautomer KeyError).',
     'bounded exhaustive enumeration of molecules x operations x numberings on the real implementation, relational oracle',
@@ -264,7 +271,8 @@ reg('C16',
     'reactors of the prepared collections (chython.reactor.reactions: 9, chython.reactor.retro: 5) x every tuple of pool molecules (54 / 27 building blocks) that '
     'matches the patterns - the set of reported reactions must equal the edit model applied to every combination of matches of every assignment of molecules to '
     'patterns, surviving atoms keep numbers and attributes, untouched stereocentres keep their configuration; colliding numbers, reversed order and a spectator '
-    'give the same set; a collection call equals the union of its reactors.',
+    'give the same set; a collection call equals the union of its reactors. Frame condition for double bonds: a labelled double bond whose ends and substituents survive unchanged keeps '
+    'label and geometry (templates naming one or both alkene carbons).',
     'Trusted: the edit model in vf/props/c16.py; matches come from the library matcher (C07/C08). Hydrogen counts of products are not modelled. The '
     'products of aromatic reactants are compared after the documented kekule/thiele normalisation. Multi-stage (one_shot=False) mode of the prepared collections is '
     'covered by the relational stage only.',
@@ -280,7 +288,9 @@ reg('C11',
     'values: every string of length <=3 over {a, blank, <, >, &, $, newline, -}. Damaged files: 4-record SDF and V3000 files with every line deletion '
     'and every field corruption at every position - all untouched records must be returned in order and nothing may escape the iteration. Random access: '
     'indexable files on disk, every index, negative indices and slices equal sequential reading. Other programs: RDKit-written V2000/V3000 blocks of the '
-    'corpus stride and every file under /repo/test are read without an exception leaving the iteration.',
+    'corpus stride and every file under /repo/test are read without an exception leaving the iteration. Mixed files: every ordered selection of 3 of 6-8 records that differ '
+    'in size and in having metadata (molecules and reactions) per file - each record comes back with exactly its own metadata, indexed = sequential. Every atom and bond line of '
+    'three V3000 records wrapped with the continuation mark at every column reads as the unwrapped record.',
     'Metadata values are compared modulo the reader normalisation (each line stripped, empty lines dropped); delimiter-looking lines, outer blanks in '
     'keys/titles are counted as out of domain; explicit hydrogens on stereocentres are excluded (property text). Cis/trans from 2D needs calc_cis_trans=True, which the check passes.',
     'bounded exhaustive enumeration of records x formats x field values x corruption positions on the real implementation',
@@ -291,7 +301,7 @@ reg('C03',
     '(244 608 one-atom strings incl. malformed members), (2) all token strings of length <=4 (thorough 5) over a 37-token alphabet (atoms, bracket '
     'atoms, every bond symbol, directional bonds, dots, branches, one- and two-digit closures, lone % and 0, reaction arrow, CXSMILES radical and '
     'fragment blocks, SMARTS-only characters), (3) 190 curated strings per listed feature and its malformed neighbours, (4) the 4200 corpus strings '
-    'and every single deletion / insertion / substitution of the shortest ones. For each string an independent recursive-descent reader decides '
+    'and every single deletion / insertion / substitution of the shortest ones (the curated list includes atom maps repeated inside a molecule, across molecules and roles). For each string an independent recursive-descent reader decides '
     'membership and builds the reference graph; the library must return an object exactly for members, equal atom by atom in parse order (element, '
     'isotope, charge, map number, CXSMILES radicals, bond list with the implicit single/aromatic choice and ring-closure bond agreement, reaction roles '
     'and fragment grouping), and must raise a ValueError-family error for non-members - any other exception type is a violation. Where RDKit parses '
